@@ -186,7 +186,9 @@ fn check_pattern_exhaustiveness_expr(statics: &mut StaticsContext, expr: &Rc<Exp
         ExprKind::Try(expr) => {
             check_pattern_exhaustiveness_expr(statics, expr);
         }
-        ExprKind::TaskBlock(_) => {}
+        ExprKind::TaskBlock(body) => {
+            check_pattern_exhaustiveness_expr(statics, body);
+        }
     }
 }
 
